@@ -8,6 +8,10 @@ HOOKS = {
     "add_only": True,
 }
 ENGINES = [
+    {"name": "life", "path": "/verif/harness/src/life.rs + src/interpose.rs + /verif/checks/life.py + /verif/lean/Model/Life.lean",
+     "serves_properties": ["C09", "C10", "C11"],
+     "kind_free_text": "real Popen driven by generated operation sequences; waitpid/kill/clock_gettime/clock_nanosleep interposed at "
+                       "link time and answered by a scripted child world on a virtual clock; the Lean model replays the answers"},
     {"name": "sh", "path": "/verif/harness/src/bin/hplain.rs + /verif/checks/c19.py + /verif/lean/Model/Sh.lean",
      "serves_properties": ["C19"],
      "kind_free_text": "Lean 4 proof over a hand-written renderer model and sh-lexer specification; differential run of the "
@@ -46,5 +50,40 @@ CLAIMED["C19"] = {
             "implementation's own text (direct oracle), and the lexer model itself is validated against /bin/sh.",
     "note": COMMON_NOTE + "Sh.parse is a model of sh (validated against dash, not proved); the theorem assumes the program name is "
             "not an sh reserved word (known finding C19:command-is-sh-reserved-word); env=None rendering only.",
+}
+LIFE_NOTE = COMMON_NOTE + ("OS axioms A5 (waitpid/kill semantics, pid recycled only after reaping) and A6 (monotonic clock, sleep "
+             "lower bound) are assumed; the sim-kernel (scripted child world on a virtual clock) and the libc interposer are "
+             "trusted test apparatus; real scheduler latency is symbolic.")
+CLAIMED["C09"] = {
+    "engine": "life", "design_ref": "DESIGN.md section 6, C09",
+    "technique": "Lean 4 proof (induction over OS answer lists and operation sequences) + sim-kernel trace conformance",
+    "text": "decode_exited/decode_signaled (all codes 0..255, all signals 1..126 with/without core flag), c09_truth (a status is "
+            "reported only if a waitpid answer carried it; never while the child runs), c09_finished_absorbing (after the first "
+            "report every query in any order returns the same value, pid() is None, and NO system call is made), "
+            "c09_undetermined, c09_state_forward -- proved for every operation sequence and every list of OS answers. Tied to the "
+            "real Popen by running generated operation sequences against a scripted child world (interposed waitpid/kill/clock/"
+            "sleep) and replaying the same answers through the Lean model; independent oracles check truth/finality on the "
+            "implementation's own log (every low status word swept).",
+    "note": LIFE_NOTE,
+}
+CLAIMED["C10"] = {
+    "engine": "life", "design_ref": "DESIGN.md section 6, C10",
+    "technique": "Lean 4 proof (log-scan invariant over operation sequences) + sim-kernel trace conformance",
+    "text": "c10_exact (every kill goes to the stored pid with exactly the requested signal, at most one per operation) and "
+            "c10_never_after_reap (in the call log of ANY operation sequence under ANY OS behaviour no kill follows a waitpid "
+            "answer that reaped the child or said ECHILD; drop never signals), c10_after_finished. Conformance and a direct "
+            "oracle (intercepted kill log vs the reaping point) on the real Popen.",
+    "note": LIFE_NOTE,
+}
+CLAIMED["C11"] = {
+    "engine": "life", "design_ref": "DESIGN.md section 6, C11",
+    "technique": "Lean 4 proof (induction on the back-off loop with a potential function) + sim-kernel trace conformance on virtual time",
+    "text": "c11_poll / c11_poll_bounded (no error, no blocking waitpid, at most 3 calls, no sleep), c11_already_known, "
+            "c11_not_early (Ok(None) only after a clock reading >= start + d), c11_wait_timeout_calls (only WNOHANG waits, every "
+            "sleep <= 100 ms), c11_no_spin (at most 9 + d/100ms status checks for EVERY d and every exit time under a clock "
+            "obeying A6). The real wait_timeout runs on a virtual clock with exit instants placed before the call, inside each "
+            "back-off interval, at the deadline and never; sleep arguments, waitpid counts and return times are compared with the "
+            "model and checked by direct oracles (not early, bounded lateness, bounded checks).",
+    "note": LIFE_NOTE + " Lateness (<= one 100 ms sleep + latencies) is checked by the oracle on virtual time, not proved.",
 }
 NOT_CLAIMED = {}
